@@ -208,3 +208,23 @@ PROPS["C19"] = dict(
     assumptions=["the loop consults has_pdu_to_send()/until_timeout() before every iteration (lib.rs select! guards), as modelled in Model/Loop.lean"],
     unproved=["after resume the transfer completes exactly as an unsuspended one (liveness, = C02)"],
 )
+
+PROPS["C20"] = dict(
+    title="Progress figures reported to users and peers are truthful",
+    module="Cfdp.Props.C20",
+    namespace="Cfdp.Loop",
+    theorems=["C20_recv", "C20_recv_mono", "C20_recv_reports", "progress_sendFileSegment", "C20_send_le"],
+    engines=["recv", "send"],
+    design="§6 C20",
+    technique="Lean 4 invariant proofs over all event histories of both models (using the C09 refinement) + differential correspondence",
+    level_text=("Kernel-checked: after every history of loop events the receiver's figure equals the sum of its well-formed segment list, i.e. by C09 the "
+                "number of distinct byte positions received (C20_recv), it never decreases (C20_recv_mono), and keep-alive PDUs, Fault, Abandon and Resumed "
+                "indications are built from that figure at the moment they are issued (C20_recv_reports); on the sender every file-data transmission sets the "
+                "figure to max(old, end of the data sent) (progress_sendFileSegment) and no transmitted data ends beyond the file (C20_send_le, from C07). "
+                "Tie to the code: recv/send engines compare the figure after every step; oracles recv_progress / send_progress compare it with the bytes "
+                "delivered / PDUs emitted as tracked independently by the harness."),
+    level_note=RECV_SEND_NOTE,
+    rule="recv + send engines as in C04/C07 (prompts, faults, suspend/resume at random points; duplicates and retransmissions). Non-trivial = a PDU was emitted or an indication raised.",
+    assumptions=[],
+    unproved=["sender: 'figure = highest offset transmitted so far' as a whole-history equation (proved per file-data transmission; the history version is checked by the send engine oracle send_progress)"],
+)
